@@ -72,7 +72,7 @@ class Task:
     __slots__ = (
         "id", "name", "proc", "thread", "_wake", "state", "pred", "deadline",
         "pending_exc", "func", "args", "op", "started", "exc", "is_main",
-        "blocked_label", "prio", "notrace",
+        "blocked_label", "prio", "notrace", "bytes_written",
     )
 
     def __init__(self, tid, name, proc, func, args):
@@ -94,6 +94,7 @@ class Task:
         self.blocked_label = None
         self.prio = 0
         self.notrace = 0
+        self.bytes_written = 0  # accepted by pipes/sockets from this task
 
     def __repr__(self):
         return f"<Task {self.id} {self.name} {self.state}>"
